@@ -251,8 +251,10 @@ class GwWorld:
             self.loop.run_until_idle(0)
             self._gen = None
 
-    def send_step(self, fields, buffer: bool = True, horizon: float = 1000.0, raw=None) -> Obs:
-        msg = raw if raw is not None else Message(*fields)
+    NO_RAW = object()
+
+    def send_step(self, fields, buffer: bool = True, horizon: float = 1000.0, raw=NO_RAW) -> Obs:
+        msg = raw if raw is not GwWorld.NO_RAW else Message(*fields)
         self.log("app", "send", tuple(fields) if fields else repr(raw), buffer)
         task = self.loop.create_task(self.gateway.send(msg, message_buffer=buffer))
         self.loop.run_until_idle(horizon)
